@@ -132,7 +132,8 @@ impl BaseStream {
 
         let mut handshaker = TlsHandshaker::new();
         apply_base_settings(&mut handshaker, base_settings);
-        let stream = handshaker.handshake(remote_host, stream)?;
+        let remote_name = remote_url.host().map(|host| tls_server_name(&host)).ok_or(ErrorKind::InvalidUrlHost)?;
+        let stream = handshaker.handshake(&remote_name, stream)?;
 
         Ok(BaseStream::Tunnel {
             stream: Box::new(stream),
@@ -208,13 +209,24 @@ impl BaseStream {
         let (stream, timeout) = BaseStream::connect_tcp(host, port, info)?;
         let mut handshaker = TlsHandshaker::new();
         apply_base_settings(&mut handshaker, info.base_settings);
-        let stream = handshaker.handshake(&host.to_string(), stream)?;
+        let stream = handshaker.handshake(&tls_server_name(host), stream)?;
         Ok(BaseStream::Tls { stream, timeout })
     }
 
     #[cfg(test)]
     pub fn mock(bytes: Vec<u8>) -> BaseStream {
         BaseStream::Mock(Cursor::new(bytes))
+    }
+}
+
+/// The name the peer's certificate is checked against. The brackets around an IPv6 literal belong to
+/// the URL syntax: with them the TLS layer cannot recognise an address, so it either refuses the name
+/// or compares it with the certificate's DNS names, which it can never equal.
+fn tls_server_name<S: AsRef<str>>(host: &Host<S>) -> String {
+    match host {
+        Host::Ipv6(addr) => addr.to_string(),
+        Host::Ipv4(addr) => addr.to_string(),
+        Host::Domain(name) => name.as_ref().to_owned(),
     }
 }
 
